@@ -280,12 +280,12 @@ func (h *H) observe() snap {
 		for _, m := range p.Messages {
 			po.urls = append(po.urls, m.TypeUrl)
 		}
-		sn.props[id] = po
 		tr := "0/0/0/0"
 		if r := p.FinalTallyResult; r != nil {
 			tr = r.YesCount + "/" + r.AbstainCount + "/" + r.NoCount + "/" + r.NoWithVetoCount
 		}
 		po.tally = tr
+		sn.props[id] = po
 		ps = append(ps, fmt.Sprintf("%d:%s:%s:%s:%s:%s:%s:%s", id, po.status, po.total, h.rel(po.dEnd), h.rel(po.vStart), h.rel(po.vEnd), b01(po.exp), tr))
 		return false, nil
 	})
@@ -781,6 +781,7 @@ func (h *H) monitor(op string, before, after snap, paidWho int, paid int64, spec
 		}
 		// the per-option counts are those the votes and the stakes give (each staked token once)
 		if f := strings.Split(ap.tally, "/"); len(f) == 4 && ts.want[0] != nil {
+			out.Count("tally:counts-compared-with-stakes")
 			for i, name := range []string{"yes", "abstain", "no", "no_with_veto"} {
 				got, _ := new(big.Int).SetString(f[i], 10)
 				want := new(big.Int).Quo(ts.want[i].Num(), ts.want[i].Denom())
@@ -1114,8 +1115,10 @@ func (h *H) dueTallies() []tallySpec {
 			return false, nil
 		}
 		cctx, _ := ctx.CacheContext()
-		_, _, res, err := k.Tally(cctx, p)
-		if err != nil {
+		var res v1.TallyResult
+		if r := hx.Try(func() error { var err error; _, _, res, err = k.Tally(cctx, p); return err }); r != "ok" {
+			// the real end-blocker will meet the same error or panic: reported there, with the block as failing input
+			h.out.Count("dry-run-tally:" + strings.SplitN(r, ":", 2)[0])
 			return false, nil
 		}
 		toInt := func(s string) sdkmath.Int { i, _ := sdkmath.NewIntFromString(s); return i }
